@@ -90,13 +90,16 @@ Definition spec (c : case) : bool :=
 (** F-C10a / F-C10b, names view: every token of the case resolves by lookup,
     is not accepted, runs nothing, has no help *)
 Definition adj_names (c : case) : bool :=
-  match c_view c with
-  | O => all2 (fun (n : string) (o : nobs) =>
-                 negb (String.eqb n "") && resolves o && negb (accepted o) &&
-                 match o_ran o with Ok None => true | _ => false end &&
-                 match o_help o with Ok None => true | _ => false end)
-              (c_names c) (c_nobs c)
-  | _ => false
+  match c_state c, c_view c with
+  | Ok s, O =>
+      all2 (fun (n : string) (o : nobs) =>
+              (* an ordinary token, judged as always -- or the finding's pattern *)
+              token_ok (c_auto_dash s) n o ||
+              (negb (String.eqb n "") && resolves o && negb (accepted o) &&
+               match o_ran o with Ok None => true | _ => false end &&
+               match o_help o with Ok None => true | _ => false end))
+           (c_names c) (c_nobs c)
+  | _, _ => false
   end.
 
 (** bindings as the listing code sees them: [fb] only the aliases the task
